@@ -618,16 +618,21 @@ def rule_relex_window(prog):
             if not is_pos(x_):
                 continue
             n_pos += 1
+            # the position decides if it reaches a condition through operators only (an argument of a call is handed on, e.g. as the
+            # position of an error - what the callee does with it is its own matter)
             chain = list(parents) + [x_]
-            for i_ in range(len(chain) - 1):
+            for i_ in range(len(chain) - 2, -1, -1):
                 p_, nx_ = chain[i_], chain[i_ + 1]
                 k_ = p_.get("k")
                 if (k_ == "If" and nx_ is p_.get("cond")) or (k_ == "Match" and nx_ is p_.get("scrut")) or \
                         (k_ == "Binary" and p_.get("op") in ("==", "!=", "<", "<=", ">", ">=")) or \
                         (k_ == "Call" and last(hir.callee(p_) or "") in ("cond", "verify") and p_.get("args") and nx_ is p_["args"][0]) or \
-                        (k_ == "Arm" and nx_ is p_.get("guard")) or k_ == "While":
+                        (k_ == "Arm" and nx_ is p_.get("guard")) or (k_ == "While" and nx_ is p_.get("cond")):
                     deciding.append((lb, x_))
                     break
+                if k_ in ("Binary", "Unary", "Paren", "Cast", "DropTemps", "AddrOf") or (k_ == "MethodCall" and nx_ is p_.get("recv")):
+                    continue
+                break
     if n_pos:
         out.add("lexer", "what is lexed does not depend on the position inside the Span", not deciding,
                 c.loc(deciding[0][1]["sp"]) if deciding else c.loc(b["sp"]),
